@@ -3,6 +3,7 @@ import NucsProofs.Examples.LatinSquare
 import NucsProofs.Examples.MagicSequence
 import NucsProofs.Examples.Knapsack
 import NucsProofs.Examples.Schur
+import NucsProofs.Examples.SchurSym
 import NucsProofs.Examples.Circuit
 import NucsProofs.Examples.MagicSquare
 import NucsProofs.Examples.MagicSquareSym
@@ -52,8 +53,11 @@ import NucsProofs.Examples.Counts
   `golombPrune`, `golombPass`; tied to the code by harness/golomb_corr.py) and its pruning is proved SOUND for every number of
   marks, state and decision list: `C20_golomb_prune_sound` (a solution inside the box stays inside; no spurious failure).  The
   proof is the argument the pinned code violated twice (D15: bounds lowered; D17: lower bounds of open variables counted as used).
+  and for the Schur model for every n (`C20_schurLemma_sb_iff`: the flag adds one lexicographic comparison of the first ⌊3n/2⌋
+  variables with the rest; `C20_schurLemma_sb_preserves`, `C20_schurLemma_sb_sat_iff`: a renaming of the colours makes its first
+  comparison 0 < 1; SchurSym.lean).
   Not proved: the larger literature counts, preservation of satisfiability and optimum by symmetry
-  breaking for the remaining flagged models — Schur, BIBD, quasigroup, sports scheduling (tested).  Noted by the count proofs: for ODD n the shipped symmetry-breaking Schur model
+  breaking for the remaining flagged models — BIBD, quasigroup, sports scheduling (tested).  Noted by the count proofs: for ODD n the shipped symmetry-breaking Schur model
   posts lexicographic_leq on 3n variables (an odd number), outside that constraint's documented shape; the
   contract of lexicographic_leq and its local theorems were then generalised to odd arity (the last variable
   is ignored, as the code does).
